@@ -517,7 +517,16 @@ start:
 			case *ir.ChangeType:
 				s.set(v, s.get(v.X))
 			case *ir.MultiConvert:
-				s.set(v, s.get(v.X))
+				if typeutil.IsPointerLike(v.Type()) && typeutil.Any(v.X.Type(), func(term *types.Term) bool {
+					b, ok := term.Type().Underlying().(*types.Basic)
+					return ok && b.Info()&types.IsInteger != 0
+				}) {
+					// As for Convert: an integer (uintptr) converted to
+					// unsafe.Pointer is nil when the integer is zero.
+					s.setOuter(v, MaybeNil)
+				} else {
+					s.set(v, s.get(v.X))
+				}
 			case *ir.Load:
 				// We know nothing about the loaded value. Set both components:
 				// leaving Inner at the lattice's identity would let any other
